@@ -711,6 +711,8 @@ from mlmverif.selfcheck import B, OK  # noqa: E402
 
 _T = 'chainables/transform.py'
 VARIANTS = [
+    OK('merged-state-stored-through-a-local', 'chainables/transform.py',
+       "          states_by_fn[key] = fn_state\n", "          merged_so_far = fn_state\n          states_by_fn[key] = merged_so_far\n"),
     OK('outputs-view-through-a-local', 'chainables/tree_fns.py',
        "    result = tree.TreeMapView(inputs)\n", "    view = tree.TreeMapView(inputs)\n    result = view\n"),
     OK('put-through-a-local', 'utils/iter_utils.py',
